@@ -749,6 +749,26 @@ example : NonnegRands exClosed.nets ∧ (closedRun exClosedSim [exClosed, exClos
   subst hn
   simp only [List.mem_cons, List.mem_nil_iff, or_false] at he
   rcases he with rfl | rfl <;> cases d <;> decide +kernel
+/-- **Allowed moves over whole runs.** Along any run of the composed model, for any events, every agent's position on
+    S → I → R → (dead: no compartment) never decreases: nobody returns to susceptible, nobody leaves recovered except by
+    dying, the dead never regain a compartment (unless an inadmissible `set_prognoses` call is reported). -/
+theorem C13_run_allowed_moves (s : Sim) (evs : List Events) (h0 : ∀ a ∈ s.pop, Good a) (hb : (run s evs).bad = false)
+    (i : Nat) (a : Agent) (h : s.pop[i]? = some a) :
+    ∃ a', (run s evs).pop[i]? = some a' ∧ rank a.fl ≤ rank a'.fl :=
+  run_monotone evs s h0 hb i a h
+
+/-- the same for closed runs, with no admissibility hypothesis -/
+theorem C13_closed_run_allowed_moves (s : Sim) (xs : List ClosedEv) (h0 : ∀ a ∈ s.pop, Good a) (hb : s.bad = false)
+    (hr : ∀ x ∈ xs, NonnegRands x.nets) (i : Nat) (a : Agent) (h : s.pop[i]? = some a) :
+    ∃ a', (closedRun s xs).pop[i]? = some a' ∧ rank a.fl ≤ rank a'.fl :=
+  closedRun_monotone xs s h0 hb hr i a h
+
+/-- an inactive agent is not touched by a step at all -/
+theorem C13_step_inactive_frozen (s : Sim) (ev : Events) (h0 : ∀ a ∈ s.pop, Good a) (hb : (simStep s ev).bad = false)
+    (i : Nat) (a : Agent) (h : s.pop[i]? = some a) (hp : a.present = false) :
+    ∃ a', (simStep s ev).pop[i]? = some a' ∧ a'.fl = a.fl ∧ a'.present = false := by
+  obtain ⟨a', g, _, z⟩ := simStep_monotone s ev h0 hb i a h
+  exact ⟨a', g, (z hp).1, (z hp).2⟩
 end wholeruns
 
 end StarsimModel.C13
